@@ -206,7 +206,8 @@ fn text_of(rng: &mut Prng, words: &[u32], radix: u32, neg: bool, plus_ok: bool) 
     } else if plus_ok && rng.chance(1, 5) {
         s.push('+');
     }
-    for _ in 0..rng.below(3) {
+    let zeros = if rng.chance(1, 6) { rng.range(20, 90) } else { rng.below(3) };
+    for _ in 0..zeros {
         s.push('0');
     }
     let upper = rng.chance(1, 3);
@@ -348,13 +349,22 @@ impl<'a> Gen<'a> {
                 let n = self.rng.below(40) as usize;
                 let lim = (r.clamp(2, 256)) as u64;
                 let mut digits: Vec<u64> = (0..n).map(|_| self.rng.below(lim)).collect();
-                if self.rng.chance(1, 4) {
-                    digits.extend([0, 0, 0]);
+                let f_order = self.rng.below(2) as i128;
+                if self.rng.chance(1, 3) {
+                    // redundant zero digits on the most significant side (end of the list for little-endian order)
+                    let z = if self.rng.chance(1, 2) { self.rng.range(1, 4) } else { self.rng.range(20, 140) } as usize;
+                    if f_order == 0 {
+                        digits.extend(std::iter::repeat(0).take(z));
+                    } else {
+                        let mut v = vec![0u64; z];
+                        v.extend(digits);
+                        digits = v;
+                    }
                 }
                 if unsafe_ && self.rng.chance(1, 3) && r < 256 && !digits.is_empty() {
                     digits[0] = (r.max(0) as u64).min(255); // a digit >= radix: must answer None
                 }
-                Step::new("u.from_radix").i("d", d).i("f", self.rng.below(2) as i128).i("r", r).l("v", digits)
+                Step::new("u.from_radix").i("d", d).i("f", f_order).i("r", r).l("v", digits)
             }
             6 | 7 => {
                 let unsafe_ = self.is_unsafe();
@@ -437,8 +447,19 @@ impl<'a> Gen<'a> {
                 let r = if unsafe_ && self.rng.chance(1, 2) { bad_radix(self.rng, false) } else { radix_digits(self.rng) };
                 let n = self.rng.below(40) as usize;
                 let lim = (r.clamp(2, 256)) as u64;
-                let digits: Vec<u64> = (0..n).map(|_| self.rng.below(lim)).collect();
-                Step::new("i.from_radix").i("d", d).i("f", self.rng.below(2) as i128).i("sg", sg).i("r", r).l("v", digits)
+                let mut digits: Vec<u64> = (0..n).map(|_| self.rng.below(lim)).collect();
+                let f_order = self.rng.below(2) as i128;
+                if self.rng.chance(1, 3) {
+                    let z = if self.rng.chance(1, 2) { self.rng.range(1, 4) } else { self.rng.range(20, 140) } as usize;
+                    if f_order == 0 {
+                        digits.extend(std::iter::repeat(0).take(z));
+                    } else {
+                        let mut v = vec![0u64; z];
+                        v.extend(digits);
+                        digits = v;
+                    }
+                }
+                Step::new("i.from_radix").i("d", d).i("f", f_order).i("sg", sg).i("r", r).l("v", digits)
             }
             8 | 9 => {
                 let unsafe_ = self.is_unsafe();
@@ -670,15 +691,19 @@ impl<'a> Gen<'a> {
             }
             return v;
         }
-        if !u && self.rng.chance(1, 8) {
-            // x := k; x := -x; x += k (scalar forms): the exact cancellation must give a canonical zero
-            let (t, k) = scalar(self.rng, true);
-            let f = *self.rng.pick(&[0i128, 1, 2, 3, 4, 5, 6, 7, 8]);
-            return vec![
-                Step::new("i.from_prim").i("d", dst).i("f", 0).i("t", t).i("k", k),
-                Step::new("i.unary").s("o", "neg").i("f", 1).i("mv", 1).i("d", dst).i("a", dst),
-                Step::new("i.sc").s("o", "add").i("t", t).i("k", k).i("f", f).i("mv", 1).i("d", dst).i("a", dst),
-            ];
+        if self.rng.chance(1, 7) {
+            // exact cancellation through every scalar operator form: x := k, then x - k, k - x, (-x) + k, k + (-x)
+            // must all give a canonical zero (NoSign, no digits), for every scalar type incl. MIN / MAX / wide values
+            let (t, k) = scalar(self.rng, !u);
+            let f = self.rng.below(9) as i128;
+            let mut v = vec![Step::new(&format!("{pre}.from_prim")).i("d", dst).i("f", 0).i("t", t).i("k", k)];
+            if !u && self.rng.chance(1, 2) {
+                v.push(Step::new("i.unary").s("o", "neg").i("f", 1).i("mv", 1).i("d", dst).i("a", dst));
+                v.push(Step::new("i.sc").s("o", "add").i("t", t).i("k", k).i("f", f).i("mv", self.rng.below(2) as i128).i("d", dst).i("a", dst));
+            } else {
+                v.push(Step::new(&format!("{pre}.sc")).s("o", "sub").i("t", t).i("k", k).i("f", f).i("mv", self.rng.below(2) as i128).i("d", dst).i("a", dst));
+            }
+            return v;
         }
         match self.rng.below(7) {
             0 => {
